@@ -25,7 +25,7 @@ import (
 
 func TestMain(m *testing.M) { common.Main(m) }
 
-var fileKinds = []string{"flip", "flip", "set", "hdrflip", "frameflip", "frameflip", "lenedit", "lenedit", "typeedit", "zero", "trunc", "trunc", "splice", "dupframe", "indexedit", "indexedit", "hdrswap", "garbage", "remove"}
+var fileKinds = []string{"flip", "flip", "set", "hdrflip", "frameflip", "frameflip", "lenedit", "lenedit", "typeedit", "zero", "trunc", "trunc", "splice", "dupframe", "indexedit", "indexedit", "hdrswap", "garbage", "remove", "strayfile"}
 var metaKinds = []string{"dupbase", "unsealmid", "sealtail", "zerobase", "indexstart", "minmax", "maxhuge", "sizelimit", "swap", "drop", "nextid", "codec", "idedit", "empty", "textflip", "texttrunc", "textset", "textgarbage"}
 
 func genBase(t *rapid.T) Base {
@@ -413,7 +413,12 @@ func runLock(c LockCase) (res common.Result) {
 	}
 	victim := filepath.Join(dir, segs[c.Mut.File%(len(segs)-1)]) // a sealed one (not the last)
 	saved, _ := os.ReadFile(victim)
+	stray := ""
 	switch c.Mut.Kind {
+	case "stray":
+		// leave the segments alone; drop a misnamed file with the segment suffix into the directory
+		stray = filepath.Join(dir, "not-a-segment.wal")
+		os.WriteFile(stray, []byte("garbage"), 0o644)
 	case "remove":
 		os.Remove(victim)
 	case "trunc":
@@ -453,6 +458,9 @@ func runLock(c LockCase) (res common.Result) {
 	}
 	// repair and open again: must succeed
 	os.WriteFile(victim, saved, 0o644)
+	if stray != "" {
+		os.Remove(stray)
+	}
 	w3, err := cfg.Open()
 	if err != nil {
 		res.Fail = common.Failf("reopen-after-repair-failed", "Open after repairing the file = %v", err)
@@ -468,7 +476,7 @@ func TestC11Lock(t *testing.T) {
 		for i := 0; i < rapid.IntRange(4, 9).Draw(t, "n"); i++ {
 			c.Base.Sizes = append(c.Base.Sizes, rapid.SampledFrom([]int{20, 60, 100}).Draw(t, "sz"))
 		}
-		c.Mut = Mut{File: rapid.IntRange(0, 6).Draw(t, "file"), Kind: rapid.SampledFrom([]string{"remove", "trunc", "hdr"}).Draw(t, "kind"), Off: rapid.IntRange(0, 31).Draw(t, "off"), Val: rapid.Uint32().Draw(t, "val")}
+		c.Mut = Mut{File: rapid.IntRange(0, 6).Draw(t, "file"), Kind: rapid.SampledFrom([]string{"remove", "trunc", "hdr", "stray"}).Draw(t, "kind"), Off: rapid.IntRange(0, 31).Draw(t, "off"), Val: rapid.Uint32().Draw(t, "val")}
 		return c
 	}, runLock)
 }
@@ -612,4 +620,112 @@ func TestC11MetaReal(t *testing.T) {
 		c.Mut = genMut(t, true)
 		return c
 	}, runMetaReal)
+}
+
+// ---- C03: a crash during the very first Open can leave a partial wal-meta.db.tmp behind; Open must still succeed.
+
+type MetaInitCase struct {
+	Kind string `json:"kind"` // none, empty, zeros, prefix, holes, complete, garbage
+	Len  int    `json:"len"`
+	Mask uint32 `json:"mask"`
+}
+
+func TestC03MetaInit(t *testing.T) {
+	common.Run(t, "C03", "C03MetaInit", func(t *rapid.T) MetaInitCase {
+		return MetaInitCase{Kind: rapid.SampledFrom([]string{"empty", "zeros", "prefix", "prefix", "holes", "holes", "complete", "garbage"}).Draw(t, "kind"),
+			Len: rapid.IntRange(1, 40000).Draw(t, "len"), Mask: rapid.Uint32().Draw(t, "mask")}
+	}, func(c MetaInitCase) (res common.Result) {
+		// a genuine, complete tmp file as bolt writes it
+		src, err := os.MkdirTemp("", "verif-metainit-src-")
+		if err != nil {
+			res.Fail = common.Failf("harness", "%v", err)
+			return
+		}
+		defer os.RemoveAll(src)
+		w0, err := kit.Cfg{SegSize: 256, Dir: src}.Open()
+		if err != nil {
+			res.Fail = common.Failf("harness", "%v", err)
+			return
+		}
+		w0.Close()
+		full, err := os.ReadFile(filepath.Join(src, "wal-meta.db"))
+		if err != nil {
+			res.Fail = common.Failf("harness", "%v", err)
+			return
+		}
+		dir, err := os.MkdirTemp("", "verif-metainit-")
+		if err != nil {
+			res.Fail = common.Failf("harness", "%v", err)
+			return
+		}
+		defer os.RemoveAll(dir)
+		var tmp []byte
+		switch c.Kind {
+		case "empty":
+			tmp = []byte{}
+		case "zeros":
+			tmp = make([]byte, c.Len)
+		case "prefix":
+			tmp = append([]byte{}, full[:c.Len%len(full)]...)
+		case "holes": // full length, some 4KiB pages never reached the disk
+			tmp = append([]byte{}, full...)
+			for pg := 0; pg*4096 < len(tmp); pg++ {
+				if c.Mask&(1<<uint(pg%32)) != 0 {
+					for i := pg * 4096; i < (pg+1)*4096 && i < len(tmp); i++ {
+						tmp[i] = 0
+					}
+				}
+			}
+		case "complete":
+			tmp = full
+		default:
+			tmp = kit.Fill(c.Len, byte(c.Mask), 3, 3)
+		}
+		if err := os.WriteFile(filepath.Join(dir, "wal-meta.db.tmp"), tmp, 0o644); err != nil {
+			res.Fail = common.Failf("harness", "%v", err)
+			return
+		}
+		res.NonTrivial = true
+		res.Classes = []string{"meta-init-leftover:" + c.Kind}
+		cfg := kit.Cfg{SegSize: 256, Dir: dir}
+		var w *wal.WAL
+		doneCh := make(chan struct{})
+		var oerr error
+		go func() { w, oerr = cfg.Open(); close(doneCh) }()
+		if parked, st := common.WaitParked(doneCh, "raft-wal.Open", 2*time.Second, 5*time.Minute); parked {
+			res.Fail = common.Failf("open-hangs", "Open with a leftover wal-meta.db.tmp (%s, %d bytes) never returns:\n%s", c.Kind, len(tmp), st)
+			return
+		}
+		if oerr != nil {
+			res.Fail = common.Failf("open-failed-after-init-crash", "a crash during the first Open left wal-meta.db.tmp (%s, %d bytes) and no wal-meta.db; the next Open = %v", c.Kind, len(tmp), oerr)
+			return
+		}
+		defer func() { w.Close() }()
+		// usable: append anywhere, stable write, truncate, reopen
+		if err := w.StoreLogs([]*raft.Log{{Index: 500, Data: []byte("a")}, {Index: 501, Data: []byte("b")}}); err != nil {
+			res.Fail = common.Failf("append-refused", "StoreLogs on the fresh log = %v", err)
+			return
+		}
+		if err := w.SetUint64([]byte("CurrentTerm"), 3); err != nil {
+			res.Fail = common.Failf("set-refused", "%v", err)
+			return
+		}
+		if err := w.DeleteRange(501, 501); err != nil {
+			res.Fail = common.Failf("delete-refused", "%v", err)
+			return
+		}
+		w.Close()
+		w, oerr = cfg.Open()
+		if oerr != nil {
+			res.Fail = common.Failf("reopen-err", "%v", oerr)
+			return
+		}
+		f, _ := w.FirstIndex()
+		l, _ := w.LastIndex()
+		v, _ := w.GetUint64([]byte("CurrentTerm"))
+		if f != 500 || l != 500 || v != 3 {
+			res.Fail = common.Failf("effects-not-durable", "after reopen first=%d last=%d term=%d, want 500 500 3", f, l, v)
+		}
+		return
+	})
 }
